@@ -79,7 +79,7 @@ static void run_batch(const std::vector<Case> &cs)
         int d2 = 0;
         int h2 = g_abn > 40 ? 1 : wv_guarded([&]()
                                               { prime(); run_case(cs[i], base + (long)(i - lo)); },
-                                              8, &d2);
+                                              20, &d2);
         if (h2 != 0)
         {
           ++g_abn;
